@@ -804,7 +804,9 @@ def judge_session(out, S):
         v.add({'rule': 'counters', 'cause': 'unexplained', 'what': 'conservation', 'mode': S['mode']},
               'passed+failed = %s but %d programs were processed'
               % (tot.get('passed', 0) + tot.get('failed', 0), S['processed']))
-    if S.get('mem_totals') is not None and S['mem_totals'] != tot:
+    if tot is None and abort is not None and pure.processed == 0:
+        pass
+    elif S.get('mem_totals') is not None and S['mem_totals'] != tot:
         v.add({'rule': 'stats-file', 'cause': 'unexplained'},
               'stats.json totals %s != STATS %s' % (tot, S['mem_totals']))
     if fkeys != attr.reported:
